@@ -35,7 +35,10 @@ class Driver:
         """splits the outputs where an immediately firing sleep led to the next tick"""
         outs, cur, cur_ev = [], [], ev
         for o in self.log:
-            if o[0] == "tickstart" and cur and cur[-1][0] == "arm":
+            # only the start-up and the sleep timer start ticks: a tick that starts in the middle of the outputs of
+            # another event (after a re-armed sleep that ended at once, or because the armed sleep ended at the very
+            # instant of this event) belongs to a timer event of its own
+            if o[0] == "tickstart" and (cur or cur_ev[0] not in ("start", "timer", "wait")):
                 outs.append((r, cur_ev, cur))
                 cur, cur_ev = [], ("timer",)
             cur.append(o)
